@@ -515,3 +515,8 @@ def finalize(ctx):
     t = ctx.tables.get("outcomes", {})
     if not any(k.endswith(":match") for k in t):
         ctx.inconc("no index matched NumPy: monitor never compared values")
+
+
+RULE += (
+    ' Every ndarray indexer handed over is compared with its copy afterwards (a modified caller array is a violation); one index array with negative entries is used on two axes of different length; 4-d/5-d vindex with non-adjacent point indexers.'
+)
